@@ -3,7 +3,7 @@
    the ocaml/gen directory by tools/build_model.sh so that model.ml lands there. *)
 From Coq Require Import Extraction ExtrOcamlBasic ExtrOcamlString.
 From QSX Require Import Base.QSum LP.ILP LP.Cert LP.User LP.OptTest LP.Driver.
-From QSX Require Import LP.Transform Float.Conv LP.Codes.
+From QSX Require Import LP.Transform Float.Conv LP.Codes LP.LibSolution.
 (* one Require line per area may be added below *)
 
 Extraction Language OCaml.
@@ -15,6 +15,7 @@ Extraction "model.ml"
   exact_solver_gen exact_solver
   neg_obj scale_row_lp dup_row add_redundant split_eq perm_rows is_perm subst_vars perm_cols
   to_double ulp
+  lib_solution internal_min
   lpstat_of_code code_of_lpstat col_bstat_of_code row_bstat_of_code max_levels
   (* add names below, one line per area *)
   .
